@@ -9,7 +9,7 @@ variable {α : Type}
 open Base
 
 theorem Rel_empty (t0 : Nat) : Rel ({ now := t0 } : Base α) :=
-  ⟨fun _ => rfl, fun h => by simp at h, rfl, fun h => by simp at h, fun h => by simp at h⟩
+  ⟨fun _ => rfl, fun h => by simp at h, rfl, fun h => by simp at h, fun h => by simp at h, fun h => by simp at h⟩
 
 theorem rcDisposed_open_empty (t0 : Nat) : (({ now := t0 } : Base α).newWin.1.outerNext ({ now := t0 } : Base α).newWin.2).rcDisposed = false := by
   simp [Base.outerNext, Base.newWin, Base.emit]
